@@ -1,3 +1,4 @@
+import NunVerif.Props.C05Format
 import NunVerif.Props.C05
 import NunVerif.Gen.Atomic
 /-
